@@ -84,6 +84,6 @@ pub fn random_string(r: &mut SplitMix64, max_len: u64) -> String {
     (0..n).map(|_| random_char(r)).collect()
 }
 
-pub fn catch<T>(f: impl FnOnce() -> T + std::panic::UnwindSafe) -> Option<T> {
-    std::panic::catch_unwind(f).ok()
+pub fn catch<T>(f: impl FnOnce() -> T) -> Option<T> {
+    std::panic::catch_unwind(std::panic::AssertUnwindSafe(f)).ok()
 }
